@@ -233,6 +233,13 @@ pub fn run_reuse(w: &[&str]) -> String {
             "ai1" => { let r = d.array_iter::<u8>().map(|mut it| it.next().map(|x| x.map_err(|e| dclass(&e)))); fin(r, d) }       // abandoned after one element
             "mi1" => { let r = d.map_iter::<u8, u8>().map(|mut it| it.next().map(|x| x.map_err(|e| dclass(&e)))); fin(r, d) }
             "bi1" => { let r = d.bytes_iter().map(|mut it| it.next().map(|x| x.map(|b| b.len()).map_err(|e| dclass(&e)))); fin(r, d) }
+            // iterators that are created and dropped before their first `next()`, or after one item: what dropping does is the decoder's business too
+            "bi0" => { let r = d.bytes_iter().map(|it| drop(it)); fin(r, d) }
+            "si0" => { let r = d.str_iter().map(|it| drop(it)); fin(r, d) }
+            "si1" => { let r = d.str_iter().map(|mut it| it.next().map(|x| x.map(|b| b.len()).map_err(|e| dclass(&e)))); fin(r, d) }
+            "ai0" => { let r = d.array_iter::<u8>().map(|it| drop(it)); fin(r, d) }
+            "mi0" => { let r = d.map_iter::<u8, u8>().map(|it| drop(it)); fin(r, d) }
+            "bit0" => { let r = d.bytes_iter().map(|it| it.take(0).count()); fin(r, d) }
             "toks3" => { let v: Vec<String> = d.tokens().take(3).map(|t| match t { Ok(t) => crate::tokop::show(&t), Err(e) => format!("E:{}", dclass(&e)) }).collect(); format!("ok:{:?}@{}", v, d.position()) }
             "probe" => { let r = d.probe().array(); fin(r, d) }
             "skip" => { let r = d.skip(); fin(r, d) }
@@ -252,6 +259,8 @@ pub fn run_reuse(w: &[&str]) -> String {
         f.set_position(pos);
         let b = step(&mut f, what).unwrap();
         if a != b { return format!("{} {}: {} => {}", same, st, a, b) }
+        // no call moves a decoder that stood inside its input to a position beyond the input's end (only `set_position` can put it there)
+        if d.position() > input.len() { return format!("{} {}: position {} beyond the {} bytes of input", same, st, d.position(), input.len()) }
         same += 1;
     }
     format!("{} -", same)
